@@ -448,17 +448,13 @@ Proof. intros w doc r1 r2 <- <-. reflexivity. Qed.
 (* error kinds (table translated from the code)                            *)
 (* ====================================================================== *)
 
-Lemma kinds_distinct_json : kinds_distinct json_kind = true.
-Proof. vm_compute. reflexivity. Qed.
-
-Lemma kinds_distinct_cbor_refuted :
-  kinds_distinct cbor_kind = false /\ confused_with cbor_kind DocParse = [SchemaParse].
+(* both public entry points keep the three failure classes apart *)
+Lemma kinds_distinct_both : kinds_distinct json_kind = true /\ kinds_distinct cbor_kind = true.
 Proof. split; vm_compute; reflexivity. Qed.
 
-(* apart from that one confusion the CBOR table separates the classes *)
-Lemma kinds_cbor_partial :
-  cbor_kind Invalid <> cbor_kind SchemaParse /\ cbor_kind Invalid <> cbor_kind DocParse.
-Proof. split; vm_compute; discriminate. Qed.
+(* hence no class can be confused with another one by looking at the constructor *)
+Lemma kinds_not_confused : forall c, confused_with json_kind c = [] /\ confused_with cbor_kind c = [].
+Proof. intros [| |]; split; vm_compute; reflexivity. Qed.
 
 Lemma kinds_are_variants :
   forallb (fun c => existsb (String.eqb (json_kind c)) json_variants) all_classes = true /\
